@@ -15,13 +15,10 @@ contributing pixels (`act`, the pixel list) are held fixed: the objective of the
 piecewise smooth because the masks of the `_safe` variants and `safe_exp`'s underflow cut depend on
 the parameters.  `disc` / `inv_series` have `has_jacobian = False` and are out of scope.
 
--- FULL (not proved): for every vector `v` and component `m`,
---   HasDerivAt (fun u => residual (unpack (v.set m u))) ((pack sumOp gradRows / norm)[m]) v[m].
--- Proved instead: every entry of the per-feature gradient array is the partial derivative in the
--- corresponding per-feature parameter (`residual_grad`, `residual_grad_bg`), and `operation=np.sum`
--- packing is the adjoint of the linear part of `unpack` (`packSum_adjoint`).  Missing: the
--- (standard) multivariate chain rule joining the two, and the row/column transposition between
--- `Lsq` rows and `Pack` columns that the driver performs.
+The single statement "for every vector `v` and component `m`,
+`HasDerivAt (fun u => residual (unpack (v.set m u))) ((pack sumOp gradRows / norm)[m]) v[m]`" - the
+chain rule joining `residual_grad` / `residual_grad_bg` with `packSum_adjoint`, including the
+row/column transposition - is proved in `Props/C15Chain.lean` (`jacobian_is_gradient`).
 -/
 namespace TrackpyV.C15
 open TrackpyV.Pack TrackpyV.Lsq
